@@ -26,6 +26,12 @@ RULE = ('SSH (quick, exhaustive grid on a recording paramiko.Transport reached t
         'session had as its reason to trust (file, accepting callback, pin, overriding profile, verification off) x random steps; every '
         'connect is judged by the oracle and by the model (Auth.ssh_history) on the content of the file AT THE TIME OF THAT connect, as for a '
         'fresh process; the same histories against the real paramiko server over a socketpair (66 in quick, 200+ in thorough). '
+        'ONE SSHSession OBJECT connected 2-4 times (connect() again after a connect() that raised: refused authentication, unknown host, failed '
+        'key exchange, refused subsystem, verification off): the key the peer presents in each connect (same / another of the same type / '
+        'another type / back to the first) x the caller\'s callback (9 policies: accept only the fingerprint of E1/E2/R1/X9, host+fingerprint, '
+        'constants, none; the same function for every connect or a different one) x pin x profile x known_hosts (unchanged within a history) x '
+        'how the earlier connect failed x random steps; each connect judged by the oracle and the model (Auth.ssh_history) on ITS arguments and '
+        'the key ITS peer presented; the same against real paramiko servers with different host keys (5 histories in quick, ~490 in thorough). '
         'TLS (quick, exhaustive): missing host/certfile/protocol x check_hostname x ca_certs x server_hostname x '
         'load_cert/load_ca outcome x connect x handshake x hello on a recording SSLContext. '
         'thorough adds a real paramiko server over a socketpair and a real ssl server on 127.0.0.1 with openssl-generated PKI. '
@@ -430,6 +436,116 @@ def check_ssh_hist_real(ctx, h):
         if i: ctx.hist('real_hist_file_changed_by', s['op'])
         real_report(ctx, h, c, r, where='session %d of %d in one process (known_hosts layout now "%s", brought there by "%s"): ' % (i + 1, n, s['kh'], s['op']))
 
+# ------------------------------------------------------------------ ONE session object connected several times
+# connect() may be called again on an SSHSession whose previous connect() raised before the session thread was started
+# (unknown host, failed key exchange, failed authentication, refused subsystem).  The property sentence is about "the server's
+# key" of THE connect being made: every connect of such an object is judged on its own arguments and on the key ITS peer
+# presented (oracle: ssh_oracle on that step; model: Auth.ssh_history, C15_fresh_judgement).  What an earlier connect of the
+# object was presented / asked / accepted must not matter: the peer's key, the callback and its policy, the pin, the
+# credentials change between the connects; the known_hosts file does not (a session object accumulates what it loads).
+REUSE_POLS = [dict(user_cb=True, cb_policy=['fp', 'E1']), dict(user_cb=True, cb_policy=['fp', 'E2']), dict(user_cb=True, cb_policy=['fp', 'R1']),
+              dict(user_cb=True, cb_policy=['fp', 'X9']), dict(user_cb=True, cb_policy=['hostfp', 'host', 'E1']), dict(user_cb=True, cb_policy=['hostfp', 'host', 'E2']),
+              dict(user_cb=True, cb_verdict=True), dict(user_cb=True, cb_verdict=False), dict(user_cb=False)]
+REUSE_FAILS = [dict(password=True, auths=[False]), dict(password=True, auths=[True], opens=[True, True], subs=[False, False]),
+               dict(password=True, auths=[True], kex_ok=False), dict(verify=False, password=True, auths=[False])]
+
+def reuse_step_case(h, i):
+    return ssh_case(kh=h['kh'], profile=h.get('profile', 'default'), **h['steps'][i])
+
+def reuse_model_call(h):
+    return [3, [ssh_model_call(reuse_step_case(h, i))[1:] for i in range(len(h['steps']))]]
+
+def ssh_reuse_histories(tier, rng=None):
+    keys = ['E1', 'E2', 'R1']
+    khs = [None, [('host', 'E1')], [('hostport', 'E2')], [('host', 'E3')]]
+    quick = tier == 'quick'
+    # two connects: the peer's key and the outcome of the first x the peer's key of the second, the caller's callback the same
+    # function both times (a caller that pins a fingerprint) or a rejecting one the second time
+    for kh, k1, k2, p1, f1, cr2 in itertools.product(khs, keys, keys, REUSE_POLS, REUSE_FAILS, [_GR, _RF]):
+        if quick and (f1 is not REUSE_FAILS[0]) and (cr2 is _RF or kh not in (None, [('host', 'E1')])): continue
+        for p2 in ([p1] if quick else [p1, REUSE_POLS[7], REUSE_POLS[8]]):
+            yield dict(kind='ssh_reuse', kh=kh, profile='default', steps=[dict(p1, server_key=k1, **f1), dict(p2, server_key=k2, **cr2)])
+    # the pin / the profile change the reason to trust, not the key the question is about
+    for k1, k2, p, pin, prof in itertools.product(keys, keys, REUSE_POLS[:6], ['E1', 'E2'], ['default', 'iosxe']):
+        yield dict(kind='ssh_reuse', kh=None, profile=prof, steps=[dict(p, server_key=k1, **_RF), dict(p, server_key=k2, pin=pin, **_GR)])
+        yield dict(kind='ssh_reuse', kh=None, profile=prof, steps=[dict(p, server_key=k1, pin=pin, **_RF), dict(p, server_key=k2, **_GR)])
+    # three connects: A, B, back to A / on to C
+    for (k1, k2, k3), p, f1, f2 in itertools.product([('E1', 'E2', 'E1'), ('E1', 'E2', 'E3'), ('E2', 'E1', 'R1'), ('R1', 'E1', 'E1')], REUSE_POLS, REUSE_FAILS, REUSE_FAILS):
+        if quick and f1 is not REUSE_FAILS[0] and f2 is not REUSE_FAILS[0]: continue
+        yield dict(kind='ssh_reuse', kh=None, profile='default', steps=[dict(p, server_key=k1, **f1), dict(p, server_key=k2, **f2), dict(p, server_key=k3, **_GR)])
+    if rng is not None:
+        for _ in range(300 if quick else 5000):
+            steps = []
+            for j in range(rng.randint(2, 4)):
+                ucb = rng.random() < 0.8
+                pol = rng.choice(CB_POLICIES) if ucb and rng.random() < 0.7 else None
+                steps.append(dict(verify=rng.random() < 0.9, pin=rng.choice([None] * 5 + ['E1', 'E2', 'bad']), user_cb=ucb, cb_policy=pol, cb_verdict=ucb and rng.random() < 0.5,
+                                  server_key=rng.choice(['E1', 'E2', 'E3', 'R1']), kex_ok=rng.random() < 0.9, subs=[rng.random() < 0.7 for _ in range(2)],
+                                  **rng.choice([_GR, _RF, _RF])))
+            yield dict(kind='ssh_reuse', kh=rng.choice(khs + [[('host', 'E2'), ('hostport', 'E1')], []]), profile=rng.choice(['default', 'default', 'iosxe', 'junos']), steps=steps)
+
+def check_ssh_reuse(ctx, h, mos):
+    """mos: output of Auth.ssh_history on the steps (one [events, result, detail] per connect), an error string, or None"""
+    if isinstance(mos, str):
+        ctx.disagree(h, mos, None, 'model runner error', theorem='C15_fresh_judgement'); mos = None
+    ctx.count(h); ctx.hist('reuse_connects', len(h['steps']))
+    holder = {}
+    prev_key = None
+    for i in range(len(h['steps'])):
+        c = reuse_step_case(h, i)
+        raw, code, exn, detail = H().run_ssh_fake(c, reuse=holder)
+        ctx.traces += 1
+        if i: ctx.hist('reuse_peer_key', 'same as in the previous connect' if c['server_key'] == prev_key else 'changed')
+        prev_key = c['server_key']
+        ctx.hist('reuse_result', {0: 'Ok', 1: 'SSHUnknownHostError', 2: 'AuthenticationError', 3: 'SSHError'}.get(code, 'other:%s' % exn))
+        where = 'connect %d of %d on ONE SSHSession object (this peer presents %s): ' % (i + 1, len(h['steps']), c['server_key'])
+        im = [impl_events(raw), code, detail]
+        mo = mos[i] if mos else None
+        if mo is not None:
+            evs, how, mcode, mdet = model_events(mo)
+            if [evs, mcode, mdet] != im:
+                ctx.disagree(h, [evs, mcode, mdet], im, where + 'Auth.ssh_history (ssh_connect on the arguments and the peer of that connect) vs that connect',
+                             theorem='C15_fresh_judgement/C15_callback_args/C15_reject')
+        for sig, text in ssh_oracle(c, raw, code, detail):
+            ctx.fail(h, where + text, sig=None, expected='property C15 (%s)' % sig,
+                     actual=dict(connect=i + 1, events=im[0], result=code, exception=exn, exception_carries=detail))
+        if code == 0: break                    # connected: the object is in use, no further connect() on it
+
+def real_reuse_histories(tier):
+    """the same against the real paramiko server: one SSHSession object, a new server (socketpair) per connect, its key per step"""
+    W, R = dict(password='wrong'), dict(password='right')
+    def st(k, cb, cr, **kw): return dict(srvkey=k, cb=cb, **dict(cr, **kw))
+    hs = [('absent', [st('E1', 'fp:E1', W), st('E2', 'fp:E1', R)]),                        # pinned fingerprint, then another device
+          ('absent', [st('E1', 'fp:E2', W), st('E2', 'fp:E2', W), st('E2', 'fp:E2', R)]),  # rejected, accepted, accepted
+          ('host', [st('E1', 'fp:E1', W), st('E2', 'fp:E1', R)]),                          # first trusted by the file (callback not asked)
+          ('absent', [st('E1', 'only_presented', W), st('E2', 'only_presented', R)]),
+          ('different', [st('E1', True, W), st('E3', 'fp:E1', R), st('E2', 'fp:E1', W)])]
+    if tier != 'quick':
+        for kh, k1, k2, cb, cr in itertools.product(['absent', 'host', 'different_hostport'], ['E1', 'E2', 'E3'], ['E1', 'E2', 'E3'],
+                                                    ['fp:E1', 'fp:E2', 'fp:E3', 'only_presented', 'only_random', True], [W, R]):
+            hs.append((kh, [st(k1, cb, W), st(k2, cb, cr)]))
+            if cr is R: hs.append((kh, [st(k1, cb, W, pin='different'), st(k2, cb, cr, verify=(k1 != 'E3'))]))
+    for kh, steps in hs:
+        yield dict(kind='ssh_reuse_real', kh=kh, steps=steps)
+
+def real_reuse_step_case(h, i):
+    c = dict(kind='ssh_real', hostkey='ecdsa', verify=True, kh=h['kh'], pin=None, cb=None, password='right', keyfile=None, subsystem_ok=True)
+    c.update(h['steps'][i])
+    return c
+
+def check_ssh_reuse_real(ctx, h):
+    cs = [real_reuse_step_case(h, i) for i in range(len(h['steps']))]
+    def once():
+        holder, rs = {}, []
+        for c in cs:
+            rs.append(H().run_ssh_real(c, reuse=holder))
+            if rs[-1]['code'] == 0: break
+        return rs
+    rs = retry3(once, lambda rs: not any(real_judge(c)[0](r) for c, r in zip(cs, rs)))
+    ctx.count(h); ctx.hist('real_reuse_connects', len(rs))
+    for i, (c, r) in enumerate(zip(cs, rs)):
+        real_report(ctx, h, c, r, where='connect %d of %d on ONE SSHSession object (this server presents %s): ' % (i + 1, len(cs), c['srvkey']))
+
 # ------------------------------------------------------------------ TLS (recording SSLContext)
 TLS_KEYS = ['host', 'certfile', 'protocol', 'check_hostname', 'ca', 'server_hostname', 'load_cert', 'load_ca', 'connect_ok', 'handshake_ok', 'hello_ok']
 def tls_cases():
@@ -493,29 +609,41 @@ def real_ssh_cases():
     for verify, kh, pin, cb, cr in itertools.product([True, False], ['absent', 'host', 'different'], [None, 'match', 'different'], [None, True], creds[:2]):
         yield dict(kind='ssh_real', hostkey='rsa', verify=verify, kh=kh, pin=pin, cb=cb, subsystem_ok=True, **cr)
 
+def _real_names(c):
+    """pool names of (the key the server presents, the key the 'different*' layouts store / pin 'different' pins)"""
+    rsa = c.get('hostkey', 'ecdsa') == 'rsa'
+    return ('SRVR' if rsa else c.get('srvkey', 'E1')), ('R1' if rsa else 'E2'), ('SRVR' if rsa else 'E1')
+
 def real_ssh_expect(c):
     """Independent statement of the property for the real-server cases: (trusted?, authenticated?)."""
+    sk, oth, stored = _real_names(c)
     # a fingerprint-checking callback says yes exactly when the fingerprint it trusts is the presented key's
-    cb_true = c['cb'] == 'only_presented' if isinstance(c['cb'], str) else bool(c['cb'])
+    if isinstance(c['cb'], str):
+        cb_true = (c['cb'][3:] if c['cb'].startswith('fp:') else {'only_presented': sk, 'only_stored': oth, 'only_random': 'X9'}[c['cb']]) == sk
+    else: cb_true = bool(c['cb'])
+    in_file = {'host': stored, 'hostport': stored, 'different': oth, 'different_hostport': oth, 'different_both': oth}.get(c['kh']) == sk
     if not c['verify']: trusted = True
-    elif c['pin']: trusted = c['pin'] == 'match' or cb_true
-    else: trusted = c['kh'] in ('host', 'hostport') or cb_true
+    elif c['pin']: trusted = {'match': sk, 'different': oth}[c['pin']] == sk or cb_true
+    else: trusted = in_file or cb_true
     # (an unencrypted key file is not usable together with a password: see load_ok)
     authed = c['password'] == 'right' or (c['keyfile'] == 'right' and not c['password'])
     return trusted, authed
 
 def real_ssh_model(c, kex_ok=True):
-    """the same case for the model (the server's key is E1, the other key of that type E2)"""
+    """the same case for the model (an RSA server key is played by E1, the other key of that type by E2)"""
+    sk = 'E1' if c.get('hostkey', 'ecdsa') == 'rsa' else c.get('srvkey', 'E1')
     kh = {'absent': None, 'empty': [], 'host': [('host', 'E1')], 'hostport': [('hostport', 'E1')], 'different': [('host', 'E2')],
           'different_hostport': [('hostport', 'E2')], 'different_both': [('host', 'E2'), ('hostport', 'E2')]}[c['kh']]
-    pol = {'only_presented': ['fp', 'E1'], 'only_stored': ['fp', 'E2'], 'only_random': ['fp', 'X9']}.get(c['cb']) if isinstance(c['cb'], str) else None
-    pin = {None: None, 'match': 'E1', 'different': 'E2'}[c['pin']]
+    pol = None
+    if isinstance(c['cb'], str):
+        pol = ['fp', c['cb'][3:]] if c['cb'].startswith('fp:') else {'only_presented': ['fp', sk], 'only_stored': ['fp', 'E2'], 'only_random': ['fp', 'X9']}[c['cb']]
+    pin = {None: None, 'match': sk, 'different': 'E2'}[c['pin']]
     auths = []
     key_tried = bool(c['keyfile']) and load_ok('kf0', c['password'])
     if key_tried: auths.append(c['keyfile'] == 'right')
     if c['password'] and not (key_tried and c['keyfile'] == 'right'): auths.append(c['password'] == 'right')
     return ssh_case(verify=c['verify'], kh=kh, pin=pin, user_cb=c['cb'] is not None, cb_verdict=bool(c['cb']) and not pol, cb_policy=pol,
-                    key_files=['kf0'] if c['keyfile'] else [], password=bool(c['password']), auths=auths,
+                    key_files=['kf0'] if c['keyfile'] else [], password=bool(c['password']), auths=auths, server_key=sk,
                     subs=[c['subsystem_ok']], opens=[True], kex_ok=kex_ok)
 
 def retry3(f, good):
@@ -635,6 +763,10 @@ def run_one(ctx, c, mo='call'):
         check_ssh_hist(ctx, c, ctx.model.call(hist_model_call(c)) if (mo is not None and ctx.model) else None)
     elif kind == 'ssh_hist_real':
         check_ssh_hist_real(ctx, c)
+    elif kind == 'ssh_reuse':
+        check_ssh_reuse(ctx, c, ctx.model.call(reuse_model_call(c)) if (mo is not None and ctx.model) else None)
+    elif kind == 'ssh_reuse_real':
+        check_ssh_reuse_real(ctx, c)
     elif kind == 'ssh_real':
         check_ssh_real(ctx, c)
     elif kind == 'tls_real':
@@ -656,13 +788,19 @@ def run(ctx):
     hs = list(ssh_histories(ctx.tier, ctx.rng))
     outs = ctx.model.batch([hist_model_call(h) for h in hs]) if ctx.model else [None] * len(hs)
     for h, mo in zip(hs, outs): check_ssh_hist(ctx, h, mo)
+    ru = list(ssh_reuse_histories(ctx.tier, ctx.rng))
+    outs = ctx.model.batch([reuse_model_call(h) for h in ru]) if ctx.model else [None] * len(ru)
+    for h, mo in zip(ru, outs): check_ssh_reuse(ctx, h, mo)
     rh = list(real_ssh_histories(ctx.tier))
     for h in rh: check_ssh_hist_real(ctx, h)
+    rr = list(real_reuse_histories(ctx.tier))
+    for h in rr: check_ssh_reuse_real(ctx, h)
     tc = list(tls_cases())
     outs = ctx.model.batch([tls_model_call(c) for c in tc]) if ctx.model else [None] * len(tc)
     for c, mo in zip(tc, outs): check_tls(ctx, c, mo)
     ctx.exhaustive = True
-    ctx.extra['grid'] = dict(ssh_cases=len(sc), tls_cases=len(tc), ssh_histories=len(hs), ssh_history_sessions=sum(len(h['steps']) for h in hs), real_ssh_histories=len(rh))
+    ctx.extra['grid'] = dict(ssh_cases=len(sc), tls_cases=len(tc), ssh_histories=len(hs), ssh_history_sessions=sum(len(h['steps']) for h in hs), real_ssh_histories=len(rh),
+                             ssh_reuse_histories=len(ru), ssh_reuse_connects=sum(len(h['steps']) for h in ru), real_reuse_histories=len(rr))
     if ctx.tier == 'thorough':
         rc = list(real_ssh_cases())
         for c in rc: check_ssh_real(ctx, c)
@@ -709,7 +847,7 @@ def search(ctx, seeds):
     few real-peer cases; return the first input on which the property sentence itself fails."""
     p = _Probe(None)
     ctx_like = type('T', (), {'tier': 'quick'})()
-    tries = list(seeds) + [dict(c, kind='ssh') for c in ssh_cases(ctx_like)] + list(tls_cases()) + list(ssh_histories('quick')) + list(real_ssh_histories('quick'))
+    tries = list(seeds) + [dict(c, kind='ssh') for c in ssh_cases(ctx_like)] + list(tls_cases()) + list(ssh_histories('quick')) + list(ssh_reuse_histories('quick')) + list(real_ssh_histories('quick')) + list(real_reuse_histories('quick'))
     tries += list(itertools.islice(real_ssh_cases(), 0, None, 7)) + list(itertools.islice(real_tls_cases(), 0, None, 5))
     for c in tries:
         try:
